@@ -1051,3 +1051,110 @@ func GenTransport(g *pk.Gen) {
 		}
 	}
 }
+
+// ---------------------------------------------------------------- transport failure during a request write (fn 13)
+// input (ps (#chunk ...) k): one package written in the given chunks is sent on channel 0 with packet size ps through a
+// transport that accepts k bytes and then fails; output (class #accepted)
+type failWriter struct {
+	limit    int
+	accepted []byte
+}
+
+func (f *failWriter) Read(p []byte) (int, error) { select {} }
+func (f *failWriter) Write(p []byte) (int, error) {
+	room := f.limit - len(f.accepted)
+	if room >= len(p) {
+		f.accepted = append(f.accepted, p...)
+		return len(p), nil
+	}
+	if room < 0 {
+		room = 0
+	}
+	f.accepted = append(f.accepted, p[:room]...)
+	return room, errors.New("write: broken pipe")
+}
+func (f *failWriter) Close() error { return nil }
+
+type chunkPkg struct{ chunks [][]byte }
+
+func (p *chunkPkg) ReadFrom(ch tds.BytesChannel) error { return errors.New("not readable") }
+func (p *chunkPkg) WriteTo(ch tds.BytesChannel) error {
+	for _, c := range p.chunks {
+		if err := ch.WriteBytes(c); err != nil {
+			return err
+		}
+	}
+	return nil
+}
+func (p *chunkPkg) String() string { return "chunkPkg" }
+
+func WriteFailRun(ps int, chunks [][]byte, k int) sx.T {
+	tr := &failWriter{limit: k}
+	conn, err := tds.VerifNewConn(context.Background(), &tds.Info{}, tr, false)
+	if err != nil {
+		panic(err)
+	}
+	conn.VerifSetPacketSize(ps)
+	ch, _ := conn.NewChannel()
+	class := 0
+	done := make(chan int, 1)
+	go func() {
+		defer func() {
+			if r := recover(); r != nil {
+				done <- -1
+			}
+		}()
+		if err := ch.SendPackage(context.Background(), &chunkPkg{chunks}); err != nil {
+			done <- 1
+		} else {
+			done <- 0
+		}
+	}()
+	select {
+	case class = <-done:
+	case <-time.After(5 * time.Second):
+		class = -2
+	}
+	return sx.L{sx.I(int64(class)), sx.B(tr.accepted)}
+}
+
+func GenWriteFail(g *pk.Gen) {
+	if !g.WantTag("write-fail") {
+		return
+	}
+	n := 40
+	if g.Thorough {
+		n = 600
+	}
+	for i := 0; i < n; i++ {
+		ps := []int{16, 24, 64, 512, 512, 2048}[g.Rng.Intn(6)]
+		total := g.Rng.Range(1, 4*ps)
+		if g.Rng.Intn(4) == 0 {
+			total = (ps - 8) * g.Rng.Range(1, 3) // exactly full packets
+		}
+		data := g.Rng.Bytes(total)
+		var chunks [][]byte
+		var ct sx.L
+		for off := 0; off < len(data); {
+			c := g.Rng.Range(1, 2*ps)
+			if off+c > len(data) {
+				c = len(data) - off
+			}
+			chunks = append(chunks, data[off:off+c])
+			ct = append(ct, sx.B(data[off:off+c]))
+			off += c
+		}
+		wire := total + 8*((total+ps-9)/(ps-8))
+		var ks []int
+		if wire <= 200 || g.Thorough && wire <= 1200 {
+			for k := 0; k <= wire+1; k++ {
+				ks = append(ks, k)
+			}
+		} else {
+			ks = []int{0, 1, 7, 8, 9, ps - 1, ps, ps + 1, ps + 8, wire - 1, wire, wire + 1, g.Rng.Intn(wire), g.Rng.Intn(wire)}
+		}
+		for _, k := range ks {
+			g.Out.Case(13, sx.L{sx.I(int64(ps)), ct, sx.I(int64(k))}, WriteFailRun(ps, chunks, k), "write-fail")
+		}
+	}
+}
